@@ -370,6 +370,7 @@ type Scenario struct {
 	ln      *trackedListener
 	kinds   map[string]string
 	mu      sync.Mutex
+	dialMu  sync.Mutex
 	nextID  int
 	opts    stack.Options
 	served  chan struct{}
@@ -439,6 +440,10 @@ func startScenarioWith(name, family string, o stack.Options, ct *controller) *Sc
 
 // dial connects with a pre-bound source port so that the accept event can be attributed.
 func (s *Scenario) dial(kind string) (net.Conn, string, error) {
+	// one at a time: between closing the reservation and connecting from it the kernel may hand the same port to a second reservation
+	// (two clients registered under one port: the accepted connection is then attributed to the wrong one)
+	s.dialMu.Lock()
+	defer s.dialMu.Unlock()
 	la, _ := net.ResolveTCPAddr("tcp", "127.0.0.1:0")
 	l, err := net.ListenTCP("tcp", la) // reserve a port
 	if err != nil {
